@@ -468,85 +468,4 @@ Proof.
 Qed.
 
 
-(* cat.c:658 *)
-Lemma start_flush_after_ok_safe : forall f s, Pre f s -> In 0%N (g_buf f s) ->
-  Safe (start_flush_after_ok f s).
-Proof.
-  intros f s H Hn. unfold start_flush_after_ok, start_flush_c, start_flush_u.
-  destruct f; pre_open H; sproj_in Hn; safe_split;
-    [unfold KS, flush_ok, Kafter | unfold US, flush_ok, Uafter]; sproj; auto using nl_max_0.
-Qed.
-
-Lemma start_flush_after_safe : forall f ac au s, Pre f s -> In 0%N (g_buf f s) ->
-  (ac = CS_AFTER_OK /\ au = US_AFTER_OK) \/
-  (cmd_ok (g_cmd f s) /\ ((ac = CS_AFTER_FMT_READ /\ au = US_AFTER_FMT_READ) \/
-                          (ac = CS_AFTER_FMT_TEST /\ au = US_AFTER_FMT_TEST))) ->
-  Safe (start_flush_after f ac au s).
-Proof.
-  intros f ac au s H Hn Ha. unfold start_flush_after, start_flush_c, start_flush_u.
-  destruct f; pre_open H; sproj_in Hn; sproj_in Ha; safe_split;
-    [unfold KS, flush_ok, Kafter | unfold US, flush_ok, Uafter]; sproj;
-    (split; [auto using nl_max_0|]);
-    destruct Ha as [[-> ->] | [Hc [[-> ->] | [-> ->]]]]; auto.
-Qed.
-
-Lemma print_response_test_safe : forall f s, Pre f s -> cmd_ok (g_cmd f s) ->
-  g_pos f s <= g_bsz f s -> nth_error (g_buf f s) (g_pos f s) = Some 0%N ->
-  if snd (print_response_test D f s) then Safe (fst (print_response_test D f s))
-  else Pre f (fst (print_response_test D f s)).
-Proof.
-  intros f s H Hc Hp Hn. unfold print_response_test, cmd_of, cmd_at.
-  destruct (cmd_ok_at _ Hc) as (ci & c & E1 & E2). rewrite E1, E2.
-  destruct (c_descr c) as [d|].
-  - destruct f; sproj_in Hc; sproj_in Hp; sproj_in Hn; sproj_in E1; pre_open H.
-    + do_print; [|pre_tac].
-      specialize (Z eq_refl (or_intror ltac:(discriminate))).
-      destruct (c_htest c); sproj.
-      * unfold set_loop_state. safe_split; try congruence. unfold KS; sproj.
-        split; [exact Hc | eapply nth_In0; eauto].
-      * apply start_flush_after_ok_safe; [pre_tac | sproj; eapply nth_In0; eauto].
-    + do_print; [|pre_tac].
-      specialize (Z eq_refl (or_intror ltac:(discriminate))).
-      destruct (c_htest c); sproj.
-      * unfold set_loop_state. safe_split; try congruence. unfold US; sproj.
-        split; [exact Hc | eapply nth_In0; eauto].
-      * apply start_flush_after_ok_safe; [pre_tac | sproj; eapply nth_In0; eauto].
-  - cbn [negb]. destruct (c_htest c); cbn [fst snd].
-    + unfold set_loop_state.
-      destruct f; sproj_in Hc; sproj_in Hp; sproj_in Hn; pre_open H; safe_split;
-        [unfold KS | unfold US]; sproj; (split; [exact Hc | eapply nth_In0; eauto]).
-    + apply start_flush_after_ok_safe; [exact H | eapply nth_In0; eauto].
-Qed.
-
-(* cat.c:869 *)
-Lemma spfta_safe : forall f s, Pre f s -> cmd_ok (g_cmd f s) ->
-  Safe (start_processing_format_test_args D f s).
-Proof.
-  intros f s H Hc. unfold start_processing_format_test_args.
-  assert (Hc0 : cmd_ok (g_cmd f (setg_pos f 0 s))) by (destruct f; exact Hc).
-  unfold cmd_of at 1, cmd_at.
-  destruct (cmd_ok_at _ Hc0) as (ci & c & E1 & E2). rewrite E1, E2.
-  destruct f; sproj_in E1; sproj_in Hc; pre_open H.
-  - do_print; [|apply ack_error_safe; pre_tac].
-    do_print; [|apply ack_error_safe; pre_tac].
-    destruct (c_vars c) as [|v0 vr] eqn:EV.
-    + match goal with |- context [print_response_test D ATCMD ?s2] =>
-        pose proof (print_response_test_safe ATCMD s2) as R;
-        destruct (print_response_test D ATCMD s2) as [s3 ok3] end.
-      cbn [fst snd] in R. sproj_in R.
-      destruct ok3; [|apply ack_error_safe]; apply R; auto; pre_tac.
-    + safe_split; try congruence. unfold KS, var_ok; sproj. rewrite E1, E2, EV. cbn [length].
-      split; [lia | assumption].
-  - do_print; [|apply unsolicited_reset_state_safe; pre_tac].
-    do_print; [|apply unsolicited_reset_state_safe; pre_tac].
-    destruct (c_vars c) as [|v0 vr] eqn:EV.
-    + match goal with |- context [print_response_test D UNSOL ?s2] =>
-        pose proof (print_response_test_safe UNSOL s2) as R;
-        destruct (print_response_test D UNSOL s2) as [s3 ok3] end.
-      cbn [fst snd] in R. sproj_in R.
-      destruct ok3; [|apply unsolicited_reset_state_safe]; apply R; auto; pre_tac.
-    + safe_split; try congruence. unfold US, var_ok; sproj. rewrite E1, E2, EV. cbn [length].
-      split; [lia | assumption].
-Qed.
-
 End Inv.
